@@ -134,7 +134,11 @@ func (v *additionalPropertiesValidator) feedLiteral(jsonLexeme lexeme.LexEvent) 
 	panic(errors.ErrUnexpectedLexInLiteralValidator)
 }
 
-func (*additionalPropertiesValidator) feedNotAllowed(lex lexeme.LexEvent) ([]validator, bool) {
+func (v *additionalPropertiesValidator) feedNotAllowed(lex lexeme.LexEvent) ([]validator, bool) {
+	// The offending thing is the key, not the first lexeme of its value.
+	if p, ok := v.parentValidator.(*objectValidator); ok {
+		lex = p.lastFoundKeyLex
+	}
 	panic(lexeme.NewLexEventError(
 		lex,
 		errors.Format(errors.ErrSchemaDoesNotSupportKey, lex.Value().Unquote().String())),
